@@ -108,3 +108,27 @@ CHECKS["C18"] = {
     ],
     "expected_probes": ["path_dir", "path_tar", "path_unpack", "path_loadarchive", "verify_rejected_edit"],
 }
+
+CHECKS["C19"] = {
+    "engine": "storage",
+    "harness": "c19",
+    "packages": ["retriever"],
+    "rules": "fs",
+    "fsnames": FSNAMES,
+    "level": "fault_enumeration",
+    "budget": {"quick": 40, "thorough": 1200},
+    "gomaxprocs": "1",
+    "rule": "one evaluation = one execution of the real Dump (or resume) under the simulated disk. Per seeded workload (1-2 graphs, <=6 nodes, <=6 relationships, codec, shard/batch sizes) a logged fault-free reference run defines the operation space (every mutating file-system call: open, write, close, rename, remove, mkdir); then either a full sweep (crash before every operation, plus one torn-write offset inside every write) or one sampled fault: crash at operation k (optionally torn write at byte j), up to 2 further crashes during successive resumes, EIO/EACCES/ENOSPC(short write) on operation k, read fault during resume validation, database error or context cancellation at database call k; after every fault the durable image is checked (I1), resume is run and checked (O1/O2), and in sampled runs one negative resume (changed codec/level/shard/batch/targets/driver, count-changing source edit of a snapshotted graph, stray file, flipped/truncated/removed/swapped committed fragment) must be refused. "
+            "Non-trivial = every case (a fault is always injected); distinct = distinct (workload, fault position, nested positions, negative variant, resume outcome) hashes, union over workers.",
+    "real": ["retriever.Dump incl. checkpoint protocol, fragment writers, manifest, resume validation", "retriever.Load / Verify (inside the oracle)", "compress/gzip, klauspost zstd"],
+    "stubs": ["simos (crash = freeze, errno injection, torn/short writes, read faults)", "simdb (source with call-error and cancellation hooks; fresh target for the oracle)"],
+    "assumptions": STOR_ASSUME + [
+        "process-crash model: system calls completed before the crash instant survive, nothing after it reaches the disk; the code never fsyncs and the statement says process crash, so power-loss reordering is out of scope",
+        "source change is applied only to graphs whose entity snapshot the checkpoint has recorded (the code's documented mechanism is count comparison); only count-changing edits are used",
+        "a refusal is always an allowed resume outcome; the share of resumes that completed is measured and a batch with none exits 2 (vacuity)",
+        "stray files use names that are not one of the temp names resume documents cleaning up",
+    ],
+    "expected_probes": ["crashes_injected", "torn_writes", "nested_crashes_injected", "resume_completed", "resume_refused_or_failed", "image_complete_with_manifest", "db_errors_injected", "cancellations_injected", "full_sweeps",
+                        "negative_opt_codec", "negative_src_add_node", "negative_stray_file", "negative_frag_flip", "negative_frag_swap"],
+    "vacuity_counter": "resume_completed",
+}
